@@ -1,6 +1,6 @@
 (* What the strict table entries of the DER/CER decoders mean in the decoder model. *)
 From Coq Require Import Lia.
-From PV Require Import Base.Bytes Model.Types Model.TableTypes Model.Proc Model.Enc Model.Dec.
+From PV Require Import Base.Bytes Model.Types Model.TableTypes Model.Proc Model.Enc Model.Dec Gen.Tables.
 Local Open Scope N_scope.
 
 Lemma attempt_one s : length (avail s) <> 0%nat ->
@@ -27,18 +27,21 @@ Lemma constructed_octets_refused : forall rec fuel proto fl sp ts len sfun,
 Proof. intros rec fuel proto fl sp ts len sfun Hc Ht. unfold dec_octets. rewrite Ht, Hc. reflexivity. Qed.
 
 Lemma constructed_bits_refused : forall rec fuel fl sp ts len,
-  df_constructed fl = false -> tag0_simple ts = false -> len <> 0%nat ->
+  df_constructed fl = false -> tag0_simple ts = false -> len <> 0 ->
   dec_bits rec fuel fl sp ts len false = Raise EMalformed.
 Proof.
   intros rec fuel fl sp ts len Hc Ht Hl. unfold dec_bits.
-  destruct (Nat.eqb_spec len 0); [congruence|]. rewrite Ht, Hc. reflexivity.
+  destruct (N.eqb_spec len 0); [congruence|]. rewrite Ht, Hc. reflexivity.
 Qed.
 
-Lemma boolean_strict : forall sp ts (o: N) s s' d,
+Lemma boolean_strict : forall fuel sp ts (o: N) s s' d,
   avail s = [o] ++ avail s' ->
-  resume (dec_bool_cer sp ts 1) s = inr (Ok d, s') -> o = 0 \/ o = 255.
+  resume (dec_bool_cer fuel sp ts 1) s = inr (Ok d, s') -> o = 0 \/ o = 255.
 Proof.
-  intros sp ts o s s' d Hav H. unfold dec_bool_cer, readN in H. cbn [Nat.eqb negb pbind resume] in H.
+  intros fuel sp ts o s s' d Hav H. unfold dec_bool_cer, read_len, readN in H.
+  replace (N.ltb index_max 1) with false in H by (vm_compute; reflexivity).
+  replace (N.to_nat (N.min 1 (N.of_nat (S fuel)))) with 1%nat in H by lia.
+  cbn [N.eqb Pos.eqb negb pbind resume] in H.
   assert (Hne: length (avail s) <> 0%nat) by (rewrite Hav; cbn; lia).
   rewrite (attempt_one s Hne) in H. rewrite Hav in H. cbn [hd app pbind resume] in H.
   destruct o as [|p]; [left; reflexivity|].
